@@ -343,6 +343,54 @@ pub fn run(seed: u64, n: usize, out: &Path, thorough: bool) -> anyhow::Result<()
             stats.inc("tickets");
             push(&mut cw, &mut stats, format!("(Ticket {} {} {})", cbool(rt_ok), cbool(hostile_panicked), cbool(empty_rejected)), format!("{{\"ticket_nodes\":{},\"roundtrip_ok\":{},\"panicked\":{}}}", nodes.len(), rt_ok, hostile_panicked), true)?;
         }
+        // key texts: the Display form of real keys parses back; cut, corrupted, re-cased, over-long and
+        // random texts give a key or an error, never a panic
+        {
+            let author = iroh_docs::Author::from_bytes(&rng.bytes32());
+            let nsec = iroh_docs::NamespaceSecret::from_bytes(&rng.bytes32());
+            // (type, strict, text form, bytes)
+            let reals: Vec<(u8, bool, String, Vec<u8>)> = vec![
+                (0, true, author.to_string(), author.to_bytes().to_vec()),
+                (1, true, nsec.to_string(), nsec.to_bytes().to_vec()),
+                (2, false, author.id().to_string(), author.id().to_bytes().to_vec()),
+                (3, false, nsec.id().to_string(), nsec.id().to_bytes().to_vec()),
+            ];
+            let parse = |ty: u8, s: &str| -> (u8, Vec<u8>) {
+                let s = s.to_string();
+                let r = catch(move || -> Option<Vec<u8>> {
+                    match ty {
+                        0 => s.parse::<iroh_docs::Author>().ok().map(|k| k.to_bytes().to_vec()),
+                        1 => s.parse::<iroh_docs::NamespaceSecret>().ok().map(|k| k.to_bytes().to_vec()),
+                        2 => s.parse::<AuthorId>().ok().map(|k| k.to_bytes().to_vec()),
+                        _ => s.parse::<NamespaceId>().ok().map(|k| k.to_bytes().to_vec()),
+                    }
+                });
+                match r { None => (2, vec![]), Some(None) => (0, vec![]), Some(Some(b)) => (1, b) }
+            };
+            for (ty, strict, text, bytes) in &reals {
+                let (v, out) = parse(*ty, text);
+                stats.inc("key_text_real");
+                push(&mut cw, &mut stats, format!("(KeyText {} {} {} {} {})", cbool(*strict), cbytes(text.as_bytes()), v, cbytes(&out), cbytes(bytes)), format!("{{\"key_text\":\"{}\",\"type\":{},\"verdict\":{}}}", text, ty, v), true)?;
+                for _ in 0..3 {
+                    let mut chars: Vec<char> = text.chars().collect();
+                    let kind = rng.below(7);
+                    match kind {
+                        0 => { let nn = rng.below(chars.len() as u64 + 1) as usize; chars.truncate(nn); }
+                        1 => { let nn = 2 * rng.below(32) as usize; chars.truncate(nn); }
+                        2 => { let i = rng.below(chars.len() as u64) as usize; chars[i] = *rng.pick(&['g', 'G', ' ', 'F', 'A', '0', 'é', '/', ':', '@', '`']); }
+                        3 => { chars = chars.into_iter().map(|c| c.to_ascii_uppercase()).collect(); }
+                        4 => { for _ in 0..1 + rng.below(4) { chars.push(*rng.pick(&['0', 'a', 'f', 'x'])); } }
+                        5 => { chars.clear(); }
+                        _ => { let nn = rng.below(70) as usize; chars = (0..nn).map(|_| *rng.pick(&['0', '1', '9', 'a', 'f', 'A', 'F', 'g', '-'])).collect(); }
+                    }
+                    let hs: String = chars.into_iter().collect();
+                    let (v, out) = parse(*ty, &hs);
+                    stats.inc(&format!("key_text_hostile_kind{}", kind));
+                    if v == 1 { stats.inc("key_text_hostile_accepted"); }
+                    push(&mut cw, &mut stats, format!("(KeyText {} {} {} {} [])", cbool(*strict), cbytes(hs.as_bytes()), v, cbytes(&out)), format!("{{\"key_text_bytes_hex\":\"{}\",\"type\":{},\"verdict\":{}}}", hex::encode(hs.as_bytes()), ty, v), v == 1)?;
+                }
+            }
+        }
         let _ = NamespaceId::from(&[0u8; 32]);
     }
     drop(push);
